@@ -1,6 +1,9 @@
 CONSTANTS
   Dev = {}
   MaxOps = 5
+  MaxViewOps = 5
+  ManyViews = TRUE
 SPECIFICATION MCSpec
 INVARIANT EmitOrders
+INVARIANT NoUndecided
 CHECK_DEADLOCK FALSE
